@@ -75,7 +75,7 @@ type Flow struct {
 type Graph struct {
 	Nodes []*Node `json:"nodes"`
 	Flows []*Flow `json:"flows"`
-	// DataObjects are declared as <dataObject id=name name=name/>.
+	// DataObjects are declared as <dataObject id=do_name name=name/> (id and name differ).
 	DataObjects []string `json:"dataObjects,omitempty"`
 }
 
@@ -310,7 +310,7 @@ func writeGraph(sb *strings.Builder, g *Graph, p *Program, pm *perm) {
 		parts = append(parts, flowXML(f, p.DefaultLang))
 	}
 	for _, d := range g.DataObjects {
-		parts = append(parts, fmt.Sprintf(`<bpmn:dataObject id="%s" name="%s"/>`+"\n", d, d))
+		parts = append(parts, fmt.Sprintf(`<bpmn:dataObject id="do_%s" name="%s"/>`+"\n", d, d))
 	}
 	if p.DeclSeed != 0 {
 		shuffle(pm, parts)
